@@ -56,13 +56,303 @@ theorem decBit_half (d : Dec) (H q ρ P : Nat) (hP : 8388608 ≤ P) (hH : 0 < H)
   · have hd : decide (d.val < H * P) = true := by simp [hlt.2 h]
     simp only [hd, if_true, h]
     rw [hval]
-  · have hd : decide (d.val < H * P) = false := by simp [fun hh => h (hlt.1 hh)]
+  · have hnl : ¬ d.val < H * P := fun hh => h (hlt.1 hh)
+    have hd : decide (d.val < H * P) = false := by simp [hnl]
     simp only [hd, Bool.false_eq_true, if_false, h]
     have hge : H * P ≤ q * P := Nat.mul_le_mul_right _ (by omega)
+    have hvlt : d.val < d.rng := by
+      have : (q + 1) * P ≤ 2 * H * P := Nat.mul_le_mul_right _ hq
+      rw [Nat.add_mul] at this; omega
     have e1 : sub32 d.val (H * P) = (q - H) * P + ρ := by
       rw [sub32_of_le (by omega) (by omega), hval, Nat.sub_mul]; omega
     have e2 : sub32 d.rng (H * P) = H * P := by
       rw [sub32_of_le (by omega) (by rw [hrng, Nat.mul_assoc]; omega), hrng, Nat.mul_assoc]; omega
     rw [e1, e2]
+
+theorem top_bit (H q : Nat) (hH : 0 < H) (hq : q < 2 * H) :
+    (2 * H - 1 - q) / H % 2 = (if q < H then 1 else 0) ∧
+    (2 * H - 1 - q) % H = H - 1 - (if q < H then q else q - H) := by
+  by_cases h : q < H
+  · have h1 : (2 * H - 1 - q) / H = 1 := Nat.div_eq_of_lt_le (by omega) (by omega)
+    have h2 : (2 * H - 1 - q) % H = 2 * H - 1 - q - H := by
+      rw [Nat.mod_eq_sub_mod (by omega), Nat.mod_eq_of_lt (by omega)]
+    rw [h1, h2, if_pos h, if_pos h]; omega
+  · have h1 : (2 * H - 1 - q) / H = 0 := Nat.div_eq_of_lt (by omega)
+    have h2 : (2 * H - 1 - q) % H = 2 * H - 1 - q := Nat.mod_eq_of_lt (by omega)
+    rw [h1, h2, if_neg h, if_neg h]; omega
+
+/-- `k+1` successive `ec_dec_bit_logp(·, 1)` on a range `2^(k+1) * P` (with `P ≥ 2^23`, so that no
+    normalisation happens before the last bit): they return, most significant first, the bits of
+    `2^(k+1) - 1 - q` where `q = val / P`, and leave `val mod P`, `rng = P` to be normalised. -/
+theorem decBits_chain : ∀ (k : Nat) (d : Dec) (P q ρ : Nat), 8388608 ≤ P → d.rng = 2 ^ (k + 1) * P →
+    d.rng ≤ 2147483648 → d.val = q * P + ρ → ρ < P → q < 2 ^ (k + 1) →
+    MatchAll (bitsOps (2 ^ (k + 1) - 1 - q) (k + 1)) (decRun d (bitsOps (2 ^ (k + 1) - 1 - q) (k + 1))).1 ∧
+    (decRun d (bitsOps (2 ^ (k + 1) - 1 - q) (k + 1))).2 = decNormalize { d with val := ρ, rng := P }
+  | 0, d, P, q, ρ, hP, hrng, hle, hval, hρ, hq => by
+    have hb := decBit_half d 1 q ρ P hP (by decide) (by simp [hrng]) hle hval hρ (by simpa using hq)
+    obtain ⟨t1, t2⟩ := top_bit 1 q (by decide) (by simpa using hq)
+    simp only [Nat.zero_add, Nat.pow_one, bitsOps, Nat.pow_zero, Nat.div_one, decRun, decOp, hb]
+    have hq2 : q < 2 := by simpa using hq
+    constructor
+    · refine ⟨?_, trivial⟩
+      simp only [Op.Matches]
+      have : (2 - 1 - q) % 2 = (if q < 1 then 1 else 0) := by
+        have := t1; simp only [Nat.mul_one, Nat.div_one] at this; exact this
+      rw [this]; split <;> simp
+    · congr 1
+      have : (if q < 1 then q else q - 1) = 0 := by split <;> omega
+      rw [this]; simp
+  | k + 1, d, P, q, ρ, hP, hrng, hle, hval, hρ, hq => by
+    have hH : 0 < 2 ^ (k + 1) := Nat.pow_pos (by decide)
+    have e2 : 2 ^ (k + 1 + 1) = 2 * 2 ^ (k + 1) := by rw [Nat.pow_succ]; omega
+    rw [e2] at hrng hq ⊢
+    generalize hHd : 2 ^ (k + 1) = H at *
+    have hb := decBit_half d H q ρ P hP hH hrng hle hval hρ hq
+    obtain ⟨t1, t2⟩ := top_bit H q hH hq
+    have hHP : 16777216 ≤ H * P := by
+      have : 2 ≤ H := by rw [← hHd, Nat.pow_succ]; have := Nat.pow_pos (n := k) (by decide : 0 < 2); omega
+      have : 2 * P ≤ H * P := Nat.mul_le_mul_right _ this
+      omega
+    generalize hq' : (if q < H then q else q - H) = q' at *
+    have hq'lt : q' < H := by rw [← hq']; split <;> omega
+    -- the state after the first bit needs no normalisation
+    have hd' : decNormalize { d with val := q' * P + ρ, rng := H * P } =
+        { d with val := q' * P + ρ, rng := H * P } := decNormalize_done _ (by simp only; omega)
+    rw [hd'] at hb
+    have hle' : H * P ≤ 2147483648 := by rw [hrng, Nat.mul_assoc] at hle; omega
+    obtain ⟨i1, i2⟩ := decBits_chain k { d with val := q' * P + ρ, rng := H * P } P q' ρ hP
+      (by rw [hHd]) hle' rfl hρ (by rw [hHd]; exact hq'lt)
+    rw [hHd] at i1 i2
+    have hbo : bitsOps (2 * H - 1 - q) (k + 1 + 1) =
+        .bitLogp ((2 * H - 1 - q) / H % 2) 1 :: bitsOps ((2 * H - 1 - q) % H) (k + 1) := by
+      rw [bitsOps, hHd]
+    rw [hbo, t2]
+    simp only [decRun, decOp, hb]
+    refine ⟨⟨?_, i1⟩, ?_⟩
+    · simp only [Op.Matches]; rw [t1]; split <;> simp
+    · rw [i2]
+
+/-! ### `ext` is irrelevant to the decoder invariant -/
+
+theorem decNormalize_setExt (c : Dec) (x : Nat) :
+    decNormalize { c with ext := x } = { decNormalize c with ext := x } := by
+  induction hm : 8388609 - c.rng using Nat.strongRecOn generalizing c with
+  | _ m ih =>
+    by_cases h : 0 < c.rng ∧ c.rng ≤ 8388608
+    · rw [decNormalize_step c h, decNormalize_step { c with ext := x } h]
+      have hs : decStep { c with ext := x } = { decStep c with ext := x } := by
+        unfold decStep readByte; split <;> rfl
+      rw [hs]
+      have hr : (decStep c).rng = u32 (c.rng * 256) := rfl
+      exact ih (8388609 - (decStep c).rng) (by rw [hr]; unfold u32; omega) (decStep c) rfl
+    · rw [decNormalize_done c h, decNormalize_done { c with ext := x } h]
+
+theorem DecAll.of_setExt {B : List Nat} {S : Nat} {e : Enc} {d : Dec} {Bt : List Nat} {x : Nat}
+    (h : DecAll B S e { d with ext := x } Bt) : DecAll B S e d Bt :=
+  ⟨⟨h.rc.buf_eq, h.rc.storage_eq, h.rc.rng_eq, h.rc.nbits_eq, h.rc.val_eq, h.rc.offs_eq, h.rc.rem_eq⟩,
+    h.err, h.nend, h.win⟩
+
+/-! ### The placeholder symbol -/
+
+/-- The inverse-CDF table `{256 - (256 >> k), 0}` of the SILK flag placeholder (enc_API.c:349-350). -/
+def flagTable (k : Nat) : List Nat := [256 - 256 / 2 ^ k, 0]
+
+theorem flagTable_legal (k : Nat) (h1 : 1 ≤ k) (h8 : k ≤ 8) : (Op.icdf 0 (flagTable k) 8).Legal := by
+  rcases (show k = 1 ∨ k = 2 ∨ k = 3 ∨ k = 4 ∨ k = 5 ∨ k = 6 ∨ k = 7 ∨ k = 8 by omega) with
+    h | h | h | h | h | h | h | h <;> (subst h; decide)
+
+/-- On a fresh encoder the placeholder `ec_enc_icdf(0, {256 - (256 >> k), 0}, 8)` is the same call as
+    `ec_encode_bin(0, 1, k)`: both leave the interval `[0, 2^(31-k))`. -/
+theorem flag_placeholder_eq (buf : List Nat) (size k : Nat) (h1 : 1 ≤ k) (h8 : k ≤ 8) :
+    encOp (encInit buf size) (.icdf 0 (flagTable k) 8) = encOp (encInit buf size) (.encodeBin 0 1 k) := by
+  rcases (show k = 1 ∨ k = 2 ∨ k = 3 ∨ k = 4 ∨ k = 5 ∨ k = 6 ∨ k = 7 ∨ k = 8 by omega) with
+    h | h | h | h | h | h | h | h <;>
+    (subst h
+     simp only [encOp, encIcdf, encodeBin, flagTable]
+     apply congrArg encNormalize
+     rw [if_neg (Nat.lt_irrefl 0), if_neg (Nat.lt_irrefl 0)]
+     apply ctx_eq <;> (first | rfl | (simp only [encInit]; decide)))
+
+/-! ### The decoder's `k` bit reads on a patch-style stream -/
+
+/-- Like `first_dec`, but the decoder reads the first `n` bits with `n` calls `ec_dec_bit_logp(·, 1)`:
+    it obtains the bits of `w`, most significant first, and ends in the same state (up to the unused
+    field `ext`) as after `ec_decode_bin(n)` / `ec_dec_update(w, w+1, 2^n)`. -/
+theorem flags_first (B : List Nat) (hB : BytesOk B) (S : Nat) (hS : 0 < S) (hBl : 0 < B.length)
+    (buf : List Nat) (size n fl w : Nat) (hs : size ≤ buf.length) (hb : BytesOk buf)
+    (hn1 : 1 ≤ n) (hn8 : n ≤ 8) (hfl : fl < 2 ^ n) (hw : w < 2 ^ n) (hBw : setTop B n w = B)
+    (hnb : (encOp (encInit buf size) (.encodeBin fl (fl + 1) n)).nbitsTotal < 4294967296)
+    (herr : (encOp (encInit buf size) (.encodeBin fl (fl + 1) n)).error = 0)
+    (hc : Contains (setTop B n fl) S (encOp (encInit buf size) (.encodeBin fl (fl + 1) n))) :
+    MatchAll (bitsOps w n) (decRun (decInit B S) (bitsOps w n)).1 ∧
+    DecAll B S (encOp (encInit buf size) (.encodeBin fl (fl + 1) n))
+      (decRun (decInit B S) (bitsOps w n)).2 (setTop B n fl) := by
+  obtain ⟨hm, hall⟩ := first_dec B hB S hS hBl buf size n fl w hs hb hn1 hn8 hfl hw hBw hnb herr hc
+  have all0 := decInit_spec B hB S buf size
+  obtain ⟨p1, p2⟩ := pow31_split n (by omega)
+  have hrng : (decInit B S).rng = 2147483648 := all0.rc.rng_eq
+  have hval : (decInit B S).val < 2147483648 := by
+    have := all0.rc.val_eq
+    rw [encInit_encM, encInit_encLow] at this
+    have hr : (encInit buf size).rng = 2147483648 := rfl
+    omega
+  generalize hd0 : decInit B S = d0 at *
+  generalize hP : 2 ^ (31 - n) = P at *
+  have hPpos : 0 < P := by rw [← hP]; exact Nat.pow_pos (by decide)
+  have hPle : P ≤ 2147483648 := by
+    have := Nat.le_mul_of_pos_right P (Nat.pow_pos (a := 2) (n := n) (by decide))
+    rw [p2] at this; exact this
+  have hP23 : 8388608 ≤ P := by
+    rw [← hP]; have : (8388608 : Nat) = 2 ^ 23 := by decide
+    rw [this]; exact Nat.pow_le_pow_right (by decide) (by omega)
+  have hq : d0.val / P < 2 ^ n := by
+    rw [Nat.div_lt_iff_lt_mul hPpos, Nat.mul_comm, p2]; exact hval
+  have hdm := Nat.div_add_mod d0.val P
+  have hρ : d0.val % P < P := Nat.mod_lt _ hPpos
+  generalize d0.val / P = q at *
+  generalize d0.val % P = ρ at *
+  -- what `ec_decode_bin` returned
+  have hfs : w = 2 ^ n - 1 - q := by
+    simp only [decOp, decodeBin, Op.Matches] at hm
+    rw [hrng, p1] at hm
+    have hqv : d0.val / P = q := by
+      apply Nat.div_eq_of_lt_le
+      · rw [Nat.mul_comm]; omega
+      · rw [Nat.add_mul, Nat.one_mul, Nat.mul_comm]; omega
+    rw [hqv] at hm
+    have h2n : 2 ^ n ≤ 256 := by
+      have : (256 : Nat) = 2 ^ 8 := by decide
+      rw [this]; exact Nat.pow_le_pow_right (by decide) hn8
+    have u1 : u32 q = q := u32_of_lt (by omega)
+    have u2 : u32 (q + 1) = q + 1 := u32_of_lt (by omega)
+    have u3 : u32 (2 ^ n) = 2 ^ n := u32_of_lt (by omega)
+    rw [u1, u2, u3] at hm
+    unfold mini at hm
+    rw [if_neg (by omega), sub32_of_le (by omega) (by omega)] at hm
+    omega
+  -- the `n` bit reads
+  obtain ⟨k, hk⟩ : ∃ k, n = k + 1 := ⟨n - 1, by omega⟩
+  obtain ⟨c1, c2⟩ := decBits_chain k d0 P q ρ hP23 (by rw [hrng, ← hk, Nat.mul_comm, p2]) (by rw [hrng]; omega)
+    (by rw [Nat.mul_comm]; exact hdm.symm) hρ (by rw [← hk]; exact hq)
+  rw [← hk, ← hfs] at c1 c2
+  refine ⟨c1, ?_⟩
+  rw [c2]
+  -- the state after `ec_decode_bin` / `ec_dec_update`, up to `ext`
+  have hst : (decOp d0 (.encodeBin w (w + 1) n)).2 =
+      { decNormalize { d0 with val := ρ, rng := P } with ext := P } := by
+    rw [← decNormalize_setExt]
+    simp only [decOp, decodeBin, decUpdate]
+    rw [hrng, p1]
+    apply congrArg decNormalize
+    have h2n : 2 ^ n ≤ 256 := by
+      have : (256 : Nat) = 2 ^ 8 := by decide
+      rw [this]; exact Nat.pow_le_pow_right (by decide) hn8
+    have u3 : u32 (2 ^ n) = 2 ^ n := u32_of_lt (by omega)
+    have e1 : sub32 (u32 (2 ^ n)) (w + 1) = q := by
+      rw [u3, sub32_of_le (by omega) (by omega)]; omega
+    have hqP : q * P < 2147483648 := by
+      have : (q + 1) * P ≤ 2 ^ n * P := Nat.mul_le_mul_right _ hq
+      rw [Nat.add_mul, Nat.mul_comm (2 ^ n), p2] at this; omega
+    have e2 : mul32 P q = P * q := mul32_of_lt (by rw [Nat.mul_comm]; omega)
+    have e3 : sub32 d0.val (P * q) = ρ := by rw [sub32_of_le (by omega) (by omega)]; omega
+    rw [e1, e2, e3]
+    apply ctx_eq <;> (try rfl)
+    show (if w > 0 then mul32 P (sub32 (w + 1) w) else sub32 2147483648 (P * q)) = P
+    split
+    · rw [sub32_of_le (by omega) (by omega)]
+      have : w + 1 - w = 1 := by omega
+      rw [this, mul32_of_lt (by omega : P * 1 < 4294967296)]; omega
+    · have hq1 : q + 1 = 2 ^ n := by omega
+      have : P * (q + 1) = 2147483648 := by rw [hq1]; exact p2
+      rw [Nat.mul_add] at this
+      rw [sub32_of_le (by omega) (by omega)]; omega
+  rw [hst] at hall
+  exact hall.of_setExt
+
+/-- **SILK header flags.**  The encoder's first call is the placeholder
+    `ec_enc_icdf(0, {256 - (256 >> k), 0}, 8)` (`1 ≤ k ≤ 8`), the rest are the operations of the round
+    trip plus any number of `ec_enc_patch_initial_bits(flags, k)`.  If `ec_enc_done` reports no error,
+    a decoder that starts with `k` calls `ec_dec_bit_logp(·, 1)` reads the bits of the last patched
+    `flags` value, most significant first (all zero if nothing was patched), then decodes every other
+    operation to the encoded value, and ends in lock-step with the encoder. -/
+theorem decode_encode_flags_all (buf : List Nat) (size k : Nat) (rest : List Op) (hs : size ≤ buf.length)
+    (hb : BytesOk buf) (hk1 : 1 ≤ k) (hk8 : k ≤ 8)
+    (hl : LegalRunP k (encOp (encInit buf size) (.icdf 0 (flagTable k) 8)) rest)
+    (hnb : (encodeAll buf size (.icdf 0 (flagTable k) 8 :: rest)).nbitsTotal < 4294967296)
+    (herr : (encodeAll buf size (.icdf 0 (flagTable k) 8 :: rest)).error = 0) :
+    MatchAll (bitsOps (lastPatch 0 rest) k ++ rest)
+      (decRun (decInit ((encodeAll buf size (.icdf 0 (flagTable k) 8 :: rest)).buf.take
+        (encodeAll buf size (.icdf 0 (flagTable k) 8 :: rest)).storage)
+        (encodeAll buf size (.icdf 0 (flagTable k) 8 :: rest)).storage)
+        (bitsOps (lastPatch 0 rest) k ++ rest)).1 ∧
+    DecAll ((encodeAll buf size (.icdf 0 (flagTable k) 8 :: rest)).buf.take
+        (encodeAll buf size (.icdf 0 (flagTable k) 8 :: rest)).storage)
+      (encodeAll buf size (.icdf 0 (flagTable k) 8 :: rest)).storage
+      (encRun (encInit buf size) (.icdf 0 (flagTable k) 8 :: rest))
+      (decRun (decInit ((encodeAll buf size (.icdf 0 (flagTable k) 8 :: rest)).buf.take
+        (encodeAll buf size (.icdf 0 (flagTable k) 8 :: rest)).storage)
+        (encodeAll buf size (.icdf 0 (flagTable k) 8 :: rest)).storage)
+        (bitsOps (lastPatch 0 rest) k ++ rest)).2
+      ((encodeAll buf size (.icdf 0 (flagTable k) 8 :: rest)).buf.take
+        (encodeAll buf size (.icdf 0 (flagTable k) 8 :: rest)).storage) := by
+  unfold encodeAll at hnb herr ⊢
+  simp only [encRun] at hnb herr ⊢
+  rw [flag_placeholder_eq buf size k hk1 hk8] at hl hnb herr ⊢
+  have hfl : 0 < 2 ^ k := Nat.pow_pos (by decide)
+  generalize he1 : encOp (encInit buf size) (.encodeBin 0 (0 + 1) k) = e1 at *
+  have herrF : (encRun e1 rest).error = 0 := by
+    apply Classical.byContradiction; intro hne
+    exact encDone_error_mono _ hne herr
+  have hnF : (encRun e1 rest).nbitsTotal < 4294967296 := by
+    have := encDone_nbitsTotal (encRun e1 rest); omega
+  have herr1 : e1.error = 0 := by
+    apply Classical.byContradiction; intro hne
+    exact encRun_error_mono rest _ hne herrF
+  have hn1' : e1.nbitsTotal < 4294967296 := Nat.lt_of_le_of_lt (encRun_nbits_mono rest _) hnF
+  have ri0 := runInv_encInit buf size hs hb
+  have hleg : (Op.encodeBin 0 (0 + 1) k).LegalAt (encInit buf size) :=
+    ⟨by omega, by omega, hk1, by omega⟩
+  have ri1 : RunInv e1 := by
+    rw [← he1]; exact (step_op _ _ ri0 hleg (by rw [he1]; exact hn1') (by rw [he1]; exact herr1)).run
+  have hcell1 : Cell k 0 e1 := by
+    rw [← he1]; exact cell_first buf size k 0 hs hb hk1 hk8 hfl (by rw [he1]; exact hn1') (by rw [he1]; exact herr1)
+  obtain ⟨_, riF, cellF, b3, b4⟩ := run_backP k rest e1 0 ri1 hcell1 hl hnF herrF
+  obtain ⟨_, d1, d2, d3, d4, d5⟩ := encDone_spec (encRun e1 rest) riF.inv riF.raw riF.bytes hnF herr
+  have hS : 0 < (encRun e1 rest).storage := by
+    apply encDone_storage_pos _ riF.inv hnF herr
+    by_cases hM : 1 ≤ encM (encRun e1 rest)
+    · exact Or.inl hM
+    · right
+      obtain ⟨_, c2, c3, c4, _⟩ := cellF
+      have hM0 : encM (encRun e1 rest) = 0 := by omega
+      unfold cellSz at c3 c4
+      rw [hM0, Nat.pow_zero, Nat.mul_one, Nat.add_mul, Nat.one_mul] at c4
+      rw [hM0, Nat.pow_zero, Nat.mul_one] at c3
+      have : 2 ^ (31 - k) ≤ 2 ^ 30 := Nat.pow_le_pow_right (by decide) (by omega)
+      omega
+  generalize encDone (encRun e1 rest) = eD at *
+  rw [d1]
+  generalize hSS : (encRun e1 rest).storage = S at *
+  generalize hw : lastPatch 0 rest = w at *
+  have hBt : BytesOk (eD.buf.take S) := bytesOk_take d3 _
+  have hby : ∀ i, byteAt (eD.buf.take S) S i < 256 := fun i => byteAt_lt_bytesOk hBt S i
+  have hBl : 0 < (eD.buf.take S).length := by
+    rw [List.length_take, d2]
+    have := riF.inv.wf.storage_le
+    omega
+  have hc : Contains (eD.buf.take S) S (encRun e1 rest) := by
+    unfold Contains at d4 ⊢; rw [codeVal_take]; exact d4
+  have hr : RawC (eD.buf.take S) S (encRun e1 rest) := by
+    unfold RawC at d5 ⊢; rw [tailVal_take]; exact d5
+  have hself := setTop_self (eD.buf.take S) S k w (encRun e1 rest) hS hby hc cellF
+  have hc1 := b3 (eD.buf.take S) S hS hBl hby (by rw [hself]; exact hc)
+  obtain ⟨m0, a0⟩ := flags_first (eD.buf.take S) hBt S hS hBl buf size k 0 w hs hb hk1 hk8 hfl cellF.t_lt hself
+    (by rw [he1]; exact hn1') (by rw [he1]; exact herr1) (by rw [he1]; exact hc1)
+  rw [he1] at a0
+  obtain ⟨m1, a1⟩ := run_decodeP k (eD.buf.take S) hBt S hS hBl rest e1 _ 0 ri1 hcell1 hl a0 hnF herrF
+    (by rw [hw, hself]; exact hc) hr
+  rw [hw, hself] at a1
+  rw [decRun_append]
+  exact ⟨matchAll_append m0 m1, a1⟩
 
 end Opus.RangeCoder
